@@ -3,7 +3,7 @@
    buffer, arbitrary payload under null slots); the right-hand sides are the naive definitions. *)
 From Coq Require Import List Arith ZArith Bool.
 From AV Require Import Model.C03_Select Model.C03_Coalesce.
-From AV Require Import Proofs.C03_Filter Proofs.C03_Take Proofs.C03_Kernels Proofs.C03_Gc Proofs.C03_CoalesceP.
+From AV Require Import Proofs.C03_Filter Proofs.C03_Take Proofs.C03_Kernels Proofs.C03_Merge Proofs.C03_Gc Proofs.C03_CoalesceP.
 From AV Require Model.C19_Bits.
 Import ListNotations.
 
@@ -13,6 +13,11 @@ Theorem slices_are_indices : forall f : list bool,
   flat_map (fun se : nat * nat => seq (fst se) (snd se - fst se)) (C19_Bits.runs f) = C19_Bits.positions f.
 Proof. exact (fun f => runs_positions f 0 None I). Qed.
 Print Assumptions slices_are_indices.
+
+(* ... and the ranges are non-empty, increasing and separated by at least one unselected row *)
+Theorem slices_are_maximal_runs : forall f : list bool, separated 0 (C19_Bits.runs f).
+Proof. exact runs_are_separated. Qed.
+Print Assumptions slices_are_maximal_runs.
 
 (* filter, for every iteration strategy a FilterPredicate may carry (None only when nothing is
    selected, All only when everything is), every mask (nulls = not selected), every column. *)
@@ -75,6 +80,16 @@ Theorem zip_refines : forall (ts : bool) (t : list (option Z)) (fs : bool) (f : 
   zip_M m ts t fs f = zip_spec (logical_mask m) ts t fs f.
 Proof. exact zip_M_spec. Qed.
 Print Assumptions zip_refines.
+
+(* merge: the same run-by-run copy, array operands consumed through running offsets; the operands only
+   need as many rows as the mask selects from them (extra rows are ignored) *)
+Theorem merge_refines : forall (ts : bool) (t : list (option Z)) (fs : bool) (f : list (option Z)) (m : pcol bool),
+  wf_col m ->
+  (ts = false -> count_true (prep_mask m) <= length t) ->
+  (fs = false -> length (fst m) - count_true (prep_mask m) <= length f) ->
+  merge_M m ts t fs f = merge_spec (logical_mask m) ts t fs f.
+Proof. exact merge_M_spec. Qed.
+Print Assumptions merge_refines.
 
 (* validity' = validity & !(mask & mask_validity) *)
 Theorem nullif_refines : forall (c : pcol Z) (m : pcol bool),
